@@ -566,6 +566,54 @@ func runC10(c *kit.Ctx) {
 		}
 	}
 
+	// reader field provenance: every field of the decoded cell is taken directly from the buffer
+	{
+		bP := paramOfType(rdr, "[]byte", 0)
+		var fromBuf func(v ssa.Value) bool
+		fromBuf = func(v ssa.Value) bool {
+			switch x := kit.Strip(v).(type) {
+			case *ssa.Parameter:
+				return x == bP
+			case *ssa.Slice:
+				return fromBuf(x.X)
+			}
+			return false
+		}
+		fields := map[string]ssa.Value{}
+		kit.Instrs(rdr, func(in ssa.Instruction) {
+			if st, ok := in.(*ssa.Store); ok {
+				if fa, ok := st.Addr.(*ssa.FieldAddr); ok {
+					if n := kit.ReceiverNamed(fa.X.Type()); n != nil && n.Obj().Name() == "Cell" && n.Obj().Pkg().Path() == kit.Module+"/pb" {
+						fields[kit.FieldVar(fa.X.Type(), fa.Field).Name()] = st.Val
+					}
+				}
+			}
+		})
+		for _, f := range []string{"Row", "Family", "Qualifier", "Value"} {
+			c.Check(fields[f] != nil && fromBuf(fields[f]), rdr, "cell-field "+f, rdr.Pos(), f+" is a sub-slice of the received buffer", f+" of the decoded cell is not taken from the received buffer")
+		}
+		okTS := false
+		if a, ok := fields["Timestamp"].(*ssa.Alloc); ok {
+			for _, st := range kit.StoresTo(a) {
+				if call, ok := st.(*ssa.Call); ok && strings.HasSuffix(kit.CalleeName(call), "bigEndian).Uint64") && fromBuf(call.Call.Args[1]) {
+					okTS = true
+				}
+			}
+		}
+		c.Check(okTS, rdr, "cell-field Timestamp", rdr.Pos(), "Timestamp is the 8 bytes read from the buffer", "the decoded timestamp is not the big-endian uint64 read from the buffer")
+		okType := false
+		if call, ok := fields["CellType"].(*ssa.Call); ok && strings.HasSuffix(kit.CalleeName(call), "pb.CellType).Enum") {
+			if cv, ok := call.Call.Args[0].(*ssa.Convert); ok {
+				if l, ok := cv.X.(*ssa.UnOp); ok {
+					if ia, ok := l.X.(*ssa.IndexAddr); ok && fromBuf(ia.X) {
+						okType = true
+					}
+				}
+			}
+		}
+		c.Check(okType, rdr, "cell-field CellType", rdr.Pos(), "CellType is the type byte of the KeyValue, converted without a table", "the decoded cell type is not the type byte passed through unchanged (a lookup table or mapping loses KeyValue types the protobuf enum has no name for, e.g. DeleteFamilyVersion = 10, which this client's own writer emits)")
+	}
+
 	// ---- R4 ---------------------------------------------------------------
 	c.StartRule("R4", "field widths and fixed header layout agree between writer and reader", 10)
 	// writer: no narrowing-then-widening conversion feeds a fixed-width write
